@@ -654,6 +654,13 @@ func (x *Exec) verify() (err error) {
 		}
 	}
 	x.run(st, fn.Blocks[0], 0, func(st *State, rs []Val) { x.checkPost(st, rs) })
+	if x.ct != nil {
+		for _, e := range x.ct.Ensures {
+			if strings.HasPrefix(e.Label, "ok.") && x.okEval[e.Label] == 0 {
+				limitf("%s: clause @%s was never evaluated: the locals it names do not exist at any success return", x.key, e.Label)
+			}
+		}
+	}
 	return nil
 }
 
@@ -709,12 +716,35 @@ func (x *Exec) checkPost(st *State, rs []Val) {
 				if !success {
 					continue
 				}
+				// the clause may mention locals that exist only on some return paths: it is an assertion at
+				// the returns where they exist (and must be evaluated on at least one path, see verify)
+				term, okc := x.tryClause(ev, e)
+				if !okc {
+					continue
+				}
+				x.okEval[e.Label]++
+				st.check(fmt.Sprintf("%s/post/%s", x.key, clauseName(e, i)), term, "postcondition (success return)")
+				continue
 			}
 			st.check(fmt.Sprintf("%s/post/%s", x.key, clauseName(e, i)), ev.evalClause(e), "postcondition")
 		}
 	}
 	x.frameCheck(st)
 	x.finish(st, "return")
+}
+
+// tryClause evaluates a clause; ok=false if it mentions a name that does not exist on this path.
+func (x *Exec) tryClause(ev *Env, c Clause) (term string, ok bool) {
+	defer func() {
+		if r := recover(); r != nil {
+			if tl, isTL := r.(toolLimit); isTL && strings.Contains(tl.msg, "unknown name") {
+				ok = false
+				return
+			}
+			panic(r)
+		}
+	}()
+	return ev.evalClause(c), true
 }
 
 // frameCheck: every heap location that existed at entry and is not named by
